@@ -1,0 +1,44 @@
+//go:build verif
+
+// Contracts for govc (contract-based deductive verification); comment-only, compiled only with -tags verif.
+package db
+
+// ---- storing the certificate just sent (C13, C02): replacing the row of that height (move to history / delete) and
+// inserting the new row are one transaction: every statement is issued through the transaction opened here, which is
+// committed only if all of them succeeded and rolled back otherwise. A crash therefore never leaves the height
+// without a row after the old one was removed. writesOutsideTx counts statements issued through anything else.
+//@ ghost var writesOutsideTx int
+
+//@ func convertCertificateToCertificateInfo
+//@   trusted
+//@   modifies nothing
+//@   ensures result1 != nil ==> result0 == nil
+//@   ensures result1 == nil ==> result0 != nil && c.Header != nil && result0.Height == c.Header.Height
+
+//@ func getCertificateByHeight
+//@   trusted
+//@   sqltext "SELECT * FROM certificate_info WHERE height = $1;"
+//@   modifies nothing
+//@   ensures result1 != nil ==> result0 == nil
+
+//@ func (a *AggSenderSQLStorage) moveCertificateToHistoryOrDelete
+//@   trusted
+//@   sqltext "INSERT INTO certificate_info_history SELECT * FROM certificate_info WHERE height = $1;"
+//@   modifies writesOutsideTx, stmtFail
+//@   ensures writesOutsideTx == old(writesOutsideTx) + ite(tx == lastTx && txState(lastTx) == 0, 0, 1)
+//@   ensures stmtFail == old(stmtFail) + ite(result == nil, 0, 1)
+
+//@ extern github.com/russross/meddler.Insert@db.(*AggSenderSQLStorage).SaveLastSentCertificate (db, table, src)
+//@   modifies writesOutsideTx, stmtFail
+//@   ensures writesOutsideTx == old(writesOutsideTx) + ite(db == lastTx && txState(lastTx) == 0, 0, 1)
+//@   ensures stmtFail == old(stmtFail) + ite(result == nil, 0, 1)
+
+//@ func (a *AggSenderSQLStorage) SaveLastSentCertificate
+//@   props C13 C02
+//@   requires a != nil && a.db != nil && a.logger != nil
+//@   requires lastTx < heapTop
+//@   modifies heap, lastTx, writesOutsideTx, stmtFail
+//@   ensures[every-statement-inside-the-transaction] writesOutsideTx == old(writesOutsideTx)
+//@   ensures[all-or-nothing] lastTx != old(lastTx) ==> ((result == nil ==> txState(lastTx) == 1) && (result != nil ==> txState(lastTx) == 2))
+//@   ensures[no-transaction-no-success] lastTx == old(lastTx) ==> result != nil
+//@   ensures[committed-only-if-every-statement-succeeded] result == nil ==> stmtFail == old(stmtFail)
